@@ -13,7 +13,7 @@ func init() {
 	register("C27", "Decides structural clauses of WriteBatch: (R27.1) inside one internal transaction the later call wins; (R27.2) on ErrTxnTooBig the batch commits and retries the same operation once on the fresh transaction, making a second failure permanent; (R27.3) Flush commits the last transaction, waits for all callbacks and reports the first error; every new internal transaction inherits the batch's commit timestamp; (R27.4) all mutations happen under the batch lock; (R28.1) a write refused with ErrTxnTooBig leaves the transaction untouched, which is what makes commit-and-retry sound. Does NOT decide final contents for arbitrary operation sequences.", propC27)
 	register("C30", "Decides structural clauses of sequences: (R30.1) the lease state of a Sequence is never assigned inside a transaction closure whose commit outcome is not yet known; (R30.2) Next hands out seq.next only when it is below the lease or a lease update succeeded on that path; (R30.3) next/leased are accessed only under seq.lock; (R30.4) the lease is read and written in one SSI transaction, so concurrent leases on one key conflict. Does NOT decide crash behaviour (C08/C10 for the lease record) or uniqueness as a fact.", propC30)
 	register("C31", "Decides structural clauses of the merge operator: (R31.1=R13.1) merge operands are exempt from every compaction drop; (R31.2) Add writes with the merge bit; the background merge writes the fold back at the version of the newest operand with the discard-earlier-versions bit and without the merge bit, under the operator's lock, which Get takes shared; (R31.3) precedence rules shared with C21/C01/C12 (the write-back has the same internal key as the newest operand and must shadow it). Does NOT decide the fold value.", propC31)
-	register("C32", "Decides structural clauses of publication: (R32.1) publisher.sendUpdates is called only by the single writer (DB.writeRequests), after the memtable was written and before the acknowledgement, so publication order is application order = commit order (R03.1, R03.4); (R32.2) publishUpdates walks requests and entries in slice order under the publisher lock and delivers per subscriber through one channel; (R32.3) the KV carries the user key, version, value and expiry of the entry. Does NOT decide trie matching with ignore bytes or exactly-once as a history property.", propC32)
+	register("C32", "Decides structural clauses of publication: (R32.1) publisher.sendUpdates is called only by the single writer (DB.writeRequests), after the memtable was written and before the acknowledgement, so publication order is application order = commit order (R03.1, R03.4); (R32.2) publishUpdates walks requests and entries in slice order under the publisher lock and delivers per subscriber through one channel; (R32.3) the KV carries the user key, version, value and expiry of the entry. Later rules (see the rule list): R32.4 matching on the user key and the trie's descent with ignored positions, R32.5 blocking delivery and pruning. Does NOT decide exactly-once as a history property.", propC32)
 }
 
 // ---- C23 ----
